@@ -23,17 +23,38 @@ source on every check run (`Pandora/Gen/HclYaml.lean`):
                             config field of its key, and yaml.v2 leaves a field out only when it is nil or an
                             `omitempty` zero (which the decoder would store as the same zero anyway).
 
+HCL-only conveniences (`config/hcl.go`: `locals` blocks, the registered collection functions) are evaluated by
+`ParseHCLFile` BEFORE the conversion; the model `evalFile` (function table and the data flow of `decodeLocals`
+regenerated from the source) is tied by the differential driver, which evaluates the syntax tree of every HCL file it
+prints:
+
+* `C16_functions_documented`  the registered functions are exactly the documented ones, each bound to its namesake;
+* `C16_locals_flow`           `decodeLocals` / `mergeMaps` / `ParseHCLFile` of the current source have the data flow of
+                               the model (a block sees the locals of the blocks before it, its entries are written over
+                               them, the body is decoded under the final locals);
+* `C16_locals_in_order`, `C16_locals_later_wins`   the blocks are processed left to right; a name defined again takes the
+                               later value, every other name keeps its value;
+* `C16_locals_inline`, `C16_locals_file`   locals are conveniences: writing the value of every local out as a literal
+                               does not change the value of any expression, nor the description a file denotes;
+* `C16_hcl_file_agrees`       end to end: whenever the HCL file evaluates to a description `d` (without a `<<` map key),
+                               the HCL front-end on the FILE and the YAML front-end on `d` written in YAML agree;
+* `C16_ammo_identical`        the ammo both providers build (`decodeAmmo`: scenarios spread by weight, steps resolved
+                               by name with multipliers and sleeps) is the same for both front-ends.
+
 What a YAML scalar's characters go through inside yaml.v2 / hcl (quoting, escapes, NFC normalisation of HCL strings)
 is library behaviour: tied by the differential harness only (see notes/C16.md).
 -/
 import Pandora.Model.C16
+import Pandora.Model.C16Locals
+import Pandora.Model.C16Ammo
 import Pandora.Spec.C16
 import Pandora.Proofs.C16
+import Pandora.Proofs.C16Locals
 import Pandora.Bridge.HclYaml
 
 namespace Pandora.Props.C16
 open Pandora.Go Pandora.Model.C16 Pandora.Proofs.C16 Pandora.Spec.C16
-open Pandora.Bridge.HclYaml (current unread)
+open Pandora.Bridge.HclYaml (current unread fns)
 
 /-! ### the regenerated tables -/
 
@@ -97,6 +118,85 @@ theorem C16_paths_agree_counterexample : ¬ C16_paths_agree_statement := by
   unfold hclPath yamlPath at h1
   rw [h2] at h1
   simp at h1
+
+/-! ### HCL-only conveniences are fully evaluated before the conversion -/
+
+/-- the functions registered by `buildHclContext` are exactly the documented ones, each bound to the go-cty stdlib
+function of its name -/
+theorem C16_functions_documented : fns = docFunctions := by decide
+
+/-- the data flow of `decodeLocals`, `mergeMaps`, `decodeLocalBlock` and `ParseHCLFile` in the current source is the
+one of the model (`evalLocals`, `evalFile`): later definitions win, blocks see the blocks before them, the body is
+decoded under the final locals, which are visible as `local.<name>` -/
+theorem C16_locals_flow :
+    Pandora.Bridge.HclYaml.laterWins = true ∧ Pandora.Bridge.HclYaml.accHoldsMerged = true ∧
+    Pandora.Bridge.HclYaml.ctxIsMerged = true ∧ Gen.HclYaml.localsBlockCtx = "ctx" ∧
+    Gen.HclYaml.localBlockEvalUnder = "param" ∧ Gen.HclYaml.parseHclBodyCtx = "locals-ctx" ∧
+    Gen.HclYaml.localsRoot = "local" ∧ Gen.HclYaml.localsBlockTypes = ["locals"] ∧
+    Gen.HclYaml.localsBlockFilter = ["locals"] :=
+  Pandora.Bridge.HclYaml.locals_flow
+
+/-- the locals blocks are processed in source order: a block appended at the end is evaluated under, and merged over,
+the locals of all blocks before it (any number of blocks, any function table) -/
+theorem C16_locals_in_order (F : List (String × String)) (bs : List (List (String × E))) (b : List (String × E)) :
+    evalLocals F [] (bs ++ [b]) = (evalLocals F [] bs).bind fun vars => localsStep F vars b :=
+  evalLocals_append F bs b []
+
+/-- one block: when its attributes evaluate (under the locals `vars` of the blocks BEFORE it) to `newVars`, then
+afterwards a name the block defines has the block's value — the last one, should the list carry the name twice — and
+every other name keeps the value it had -/
+theorem C16_locals_later_wins (F : List (String × String)) (vars : Env) (b : List (String × E)) (newVars : Env)
+    (h : evalM F vars b = some newVars) (k : String) :
+    ∃ vars', localsStep F vars b = some vars' ∧
+      envGet vars' k = match envGet newVars.reverse k with
+        | some v => some v
+        | none => envGet vars k := by
+  refine ⟨mergeMaps vars newVars, ?_, envGet_mergeMaps newVars vars k⟩
+  simp [localsStep, h]
+
+/-- locals are conveniences: an expression evaluated under the locals has the value of the expression in which every
+defined local is written out as a literal, evaluated without any locals (undefined locals stay errors) -/
+theorem C16_locals_inline (F : List (String × String)) (env : Env) (e : E) :
+    evalE F [] (inlineE env e) = evalE F env e :=
+  eval_inline F env e
+
+/-- a file with `locals` blocks denotes the same description as the file without them whose body has the locals'
+values written out -/
+theorem C16_locals_file (F : List (String × String)) (f : HclFile) (env : Env)
+    (h : evalLocals F [] f.locals = some env) :
+    evalFile F f = evalFile F ⟨[], inlineE env f.body⟩ := by
+  simp [evalFile, h, evalLocals, eval_inline]
+
+/-- end to end, from the SYNTAX of the HCL file: whenever `ParseHCLFile` evaluates the file (locals, templates,
+function calls) to a description `d` that has no `<<` map key, the HCL front-end on the file and the YAML front-end on
+`d` written directly in YAML return the same `AmmoConfig` -/
+theorem C16_hcl_file_agrees (f : HclFile) (d : V) (h : evalFile fns f = some d) (hm : hasMergeKey d = false) :
+    hclFilePath current fns f = yamlPath current d := by
+  have h1 : hclFilePath current fns f = hclPath current d := by
+    unfold hclFilePath
+    rw [h]
+  rw [h1]
+  exact C16_paths_agree_partial d hm
+
+/-- a file whose locals or expressions do not evaluate is refused as a whole (nothing half-evaluated is converted) -/
+theorem C16_hcl_file_refused (f : HclFile) (h : evalFile fns f = none) :
+    hclFilePath current fns f = .refused := by
+  unfold hclFilePath
+  rw [h]
+
+/-! ### identical ammo -/
+
+/-- the ammo the providers build from the decoded config (scenarios spread by weight, steps resolved by name with
+multipliers and sleeps) is the same for the HCL structs marshalled by yaml.v2 and for the description written in YAML —
+for all compatible tables and every description -/
+theorem C16_ammo_identical (T : Tables) (u : List String) (hc : compat T u = true) (d : V) :
+    ammoOf (decode T (marshal T (complete T d))) = ammoOf (decode T (yamlDoc T d)) := by
+  rw [C16_equiv_complete T u hc]
+
+/-- the instance for the current source -/
+theorem C16_ammo_identical_current (d : V) :
+    ammoOf (decode current (marshal current (complete current d))) = ammoOf (decode current (yamlDoc current d)) :=
+  C16_ammo_identical current unread C16_tables_compat d
 
 /-! ### every field survives the conversion -/
 
@@ -218,6 +318,59 @@ example : compatS current unread 6 "RequestPostprocessorHCL" (.plugin "component
   decide
 example : compatS current unread 6 "SourceHCL" (.plugin "components/providers/scenario/vs.VariableSource") = true := by
   decide
+
+/-! ### locals, functions and ammo: concrete instances -/
+
+/-- the idiom of docs/eng/scenario/locals.md: two `locals` blocks (the second one uses `merge` over a local of the
+first and defines `next` again), a request whose headers merge a local with a literal object, interpolation -/
+def docFile : HclFile :=
+  { locals := [
+      [("common_headers", .map [("Content-Type", .str "application/json"), ("Useragent", .str "Yandex")]),
+       ("next", .str "first"), ("api", .str "/v1")],
+      [("auth_headers", .call "merge" [.loc "common_headers", .map [("Authorization", .str "Bearer t")]]),
+       ("next", .str "second"), ("seen", .loc "next")],
+      [("api", .str "/v2")]],
+    body := .map [
+      ("request", .seq [.map [("name", .str "list_req"), ("method", .str "GET"),
+        ("headers", .call "merge" [.loc "auth_headers", .map [("Useragent", .str "Pandora")]]),
+        ("tag", .loc "seen"), ("uri", .tmpl [.loc "api", .str "/list/", .loc "next"])]]),
+      ("scenario", .seq [.map [("name", .str "s"), ("weight", .call "element" [.seq [.int 7, .int 2], .int 3]),
+        ("requests", .call "concat" [.seq [.str "list_req(2, 10)"], .call "split" [.str ",", .str "sleep(5),list_req"]])]])] }
+
+/-- it evaluates: `next` and `api` take their LAST definitions, `seen` the value `next` had when its block was decoded,
+`merge` lets later arguments win, `element` wraps around -/
+example : evalFile fns docFile = some (.map [
+      ("request", .seq [.map [("name", .str "list_req"), ("method", .str "GET"),
+        ("headers", .map [("Content-Type", .str "application/json"), ("Useragent", .str "Pandora"),
+          ("Authorization", .str "Bearer t")]),
+        ("tag", .str "first"), ("uri", .str "/v2/list/second")]]),
+      ("scenario", .seq [.map [("name", .str "s"), ("weight", .int 2),
+        ("requests", .seq [.str "list_req(2, 10)", .str "sleep(5)", .str "list_req"])]])]) := by
+  rfl
+
+/-- the hypothesis of `C16_locals_later_wins` is met by the second block, and the name it defines again changes -/
+example : evalM fns [("next", .str "first")] [("next", .str "second"), ("seen", .loc "next")] =
+    some [("next", .str "second"), ("seen", .str "first")] := by rfl
+
+/-- a local that is not defined, a function that is not registered: the file is refused -/
+example : evalFile fns ⟨[], .map [("request", .seq [.map [("uri", .loc "nope")]])]⟩ = none := by rfl
+example : evalFile fns ⟨[], .map [("request", .seq [.map [("uri", .call "upper" [.str "x"])]])]⟩ = none := by rfl
+
+/-- a block does not see its own attributes -/
+example : evalFile fns ⟨[[("a", .str "1"), ("b", .loc "a")]], .map []⟩ = none := by rfl
+
+/-- the ammo of the documentation-style file: one scenario, the step twice with 10 ms sleep, 5 ms more on the second
+copy, then once more -/
+example : (evalFile fns docFile).map (fun d => ammoOf (decode current (marshal current (complete current d)))) =
+    some (some [⟨"s", 0, [("list_req", 10), ("list_req", 15), ("list_req", 0)]⟩]) := by decide
+
+/-- weights 2, 4, 6 → 1 + 2 + 3 ammo; a step reference that names no step, a `sleep` with nothing before it and a
+negative weight refuse the file -/
+example : (decodeAmmo ["r"] [⟨"a", 2, 0, ["r"]⟩, ⟨"b", 4, 0, ["r"]⟩, ⟨"c", 6, 0, ["r"]⟩]).map (·.map (·.name)) =
+    some ["a", "b", "b", "c", "c", "c"] := by decide
+example : decodeAmmo ["r"] [⟨"a", 1, 0, ["q"]⟩] = none := by decide
+example : decodeAmmo ["r"] [⟨"a", 1, 0, ["sleep(3)", "r"]⟩] = none := by decide
+example : decodeAmmo ["r"] [⟨"a", -1, 0, ["r"]⟩] = none := by decide
 
 /-! ### `compat` is not vacuous: tables that break it do break the equivalence -/
 
